@@ -13,6 +13,19 @@ Case kinds (one line each; harness/kernels.cpp and ocaml/drv_kernels.ml):
     U rows cols seed n         min/max index ever returned by UniformDispersalKernel
     UF nat|ant rows cols seed n   the same through create_natural/anthro_kernel
     F nat|ant hex stochastic   kernel class chosen by the factory
+    real kernels (LAND = rows cols ew ns edges: non-square raster, a network with one edge per
+    pair of node cells r:c-r:c or `-`; CELLS = source cells, some with a node, some without):
+    SW type flag movement LAND seed CELLS   hand-built SwitchDispersalKernel (flag 0|1|d): per cell
+                               is_cell_eligible, the member kernel that produced the result
+                               (the call is compared with each member kernel run alone from
+                               the same generator state), exception
+    SS type                    supports_kernel of the switch kernel and the five classes
+    KE movement LAND CELLS     is_cell_eligible of the five real kernel classes
+    FE nat|ant hex stochastic movement LAND CELLS   class and eligibility of the factory-built wrapper
+    MX hand|cfg use pk uk bern type flag natkind movement LAND seed CELLS   the mix of REAL kernels
+                               (two SwitchDispersalKernels / create_dynamic_kernel): eligibility of
+                               the anthropogenic kernel inside the mix, which kernel ran, Bernoulli
+                               draws consumed, exception
   implementation only (monitor; the real-valued model is not executable)
     G dir ew ns kernel scale shape seed n    kappa = 1e6: sign pattern and
                                |drow|*ns ~ |dcol|*ew for every draw
@@ -31,6 +44,7 @@ never the theorem.
 import math
 import os
 import random
+import re
 
 import vcommon as vc
 
@@ -174,6 +188,106 @@ def gen_exact(rng, thorough):
     return cases
 
 
+# ---- real kernels: SwitchDispersalKernel, eligibility, the mix of real kernels ----
+KTYPES = ["Cauchy", "Exponential", "Uniform", "DeterministicNeighbor", "PowerLaw", "HyperbolicSecant", "Gamma",
+          "ExponentialPower", "Weibull", "Normal", "LogNormal", "Logistic", "Network", "None"]
+RADIAL_TYPES = ["Cauchy", "Exponential", "Weibull", "Normal", "LogNormal", "PowerLaw", "HyperbolicSecant", "Gamma",
+                "ExponentialPower", "Logistic"]
+MOVEMENTS = ["teleport", "walk", "jump"]
+
+
+def gen_land(rng, null_network=False):
+    """(land tokens, node cells, source cells): a non-square raster with unequal
+    dyadic resolutions and a network of 1-3 edges between distinct node cells.
+    An edge never joins a cell to itself or to its south-east neighbour (the
+    results of the deterministic and the neighbour member kernels)."""
+    rows, cols = rng.choice([(4, 7), (5, 3), (3, 6), (7, 4), (2, 9), (6, 5), (rng.randint(2, 7), rng.randint(8, 10))])
+    ew, ns = rng.choice([(10, 30), (30, 10), (0.5, 2), (8, 8), (100, 25), (2, 0.5)])
+    allc = [(r, c) for r in range(rows) for c in range(cols)]
+    nodes = []
+    edges = []
+    if not null_network:
+        for _ in range(rng.randint(1, 3)):
+            for _try in range(50):
+                a, b = rng.choice(allc), rng.choice(allc)
+                if a in nodes or b in nodes or a == b:
+                    continue
+                if (a[0] + 1, a[1] + 1) == b or (b[0] + 1, b[1] + 1) == a:
+                    continue
+                nodes += [a, b]
+                edges.append((a, b))
+                break
+    free = [x for x in allc if x not in nodes]
+    cells = rng.sample(nodes, min(len(nodes), rng.randint(1, 3))) + rng.sample(free, rng.randint(2, 3))
+    # the cell right next to a node and the corners are the interesting node-less cells
+    if nodes:
+        n0 = nodes[0]
+        for cand in [(n0[0], n0[1] + 1), (n0[0] + 1, n0[1]), (n0[0], n0[1] - 1)]:
+            if cand in free and cand not in cells:
+                cells.append(cand)
+                break
+    rng.shuffle(cells)
+    etxt = ",".join("%d:%d-%d:%d" % (a[0], a[1], b[0], b[1]) for a, b in edges) if edges else "-"
+    land = "%d %d %g %g %s" % (rows, cols, ew, ns, etxt)
+    return land, nodes, " ".join("%d:%d" % x for x in cells)
+
+
+def gen_real(rng, thorough):
+    cases = []
+    for ty in KTYPES:
+        cases.append("SS " + ty)
+    reps = 2 if thorough else 1
+    # every kernel type x flag, hand-built switch kernel
+    for ty in KTYPES:
+        for flag in ("0", "1", "d"):
+            for _ in range(reps):
+                land, _, cells = gen_land(rng, null_network=(ty != "Network" and rng.random() < 0.15))
+                mv = rng.choice(MOVEMENTS) if ty == "Network" or rng.random() < 0.3 else "teleport"
+                cases.append("SW %s %s %s %s %d %s" % (ty, flag, mv, land, rng.randint(1, 10 ** 6), cells))
+    for mv in MOVEMENTS:
+        land, _, cells = gen_land(rng)
+        cases.append("KE %s %s %s" % (mv, land, cells))
+    land, _, cells = gen_land(rng, null_network=True)
+    cases.append("KE teleport %s %s" % (land, cells))
+    # factory-built wrappers
+    for which in ("nat", "ant"):
+        for n in KERNEL_ENUM:
+            for st in (1, 0):
+                land, _, cells = gen_land(rng)
+                cases.append("FE %s %s %d %s %s %s" % (which, hexs(rng.choice(kernel_spellings(n))), st, rng.choice(MOVEMENTS), land, cells))
+        land, _, cells = gen_land(rng)
+        cases.append("FE %s %s 1 walk %s %s" % (which, hexs("bogus"), land, cells))
+    # the mix of real kernels: every anthropogenic type x flag x route; the network type with
+    # every combination of enabled / Bernoulli outcome
+    for route in ("hand", "cfg"):
+        for ty in KTYPES:
+            for flag in ("0", "1"):
+                combos = [(1, None)]
+                if ty == "Network":
+                    combos = [(1, 0), (1, 1), (0, 0), (1, None)] * reps
+                elif rng.random() < 0.3:
+                    combos.append((0, None))
+                for use, want_bern in combos:
+                    if route == "cfg" and ty == "None" and use:
+                        continue  # Radial/Deterministic(None) cannot be called; with the kernel disabled it never is
+                    pk = rng.choice([4, 8, 12, rng.randint(1, 15)])
+                    if want_bern is None:
+                        uk = rng.randint(0, 15)
+                    elif want_bern:
+                        uk = rng.randint(0, max(0, (pk - 1) // 2)) if pk > 0 else 0
+                    else:
+                        uk = rng.randint(min(15, (pk + 1) // 2), 15)
+                    bern = 1 if (2 * uk + 1) / 32.0 < pk / 16.0 else 0
+                    # a stochastic natural kernel is told apart by its stream; with the flag off the Config
+                    # route makes the natural kernel deterministic too: then a neighbour kernel is used
+                    natkind = "neighbor" if (route == "cfg" and flag == "0") else rng.choice(["radial", "radial", "neighbor"])
+                    mv = rng.choice(MOVEMENTS) if ty == "Network" else "teleport"
+                    land, _, cells = gen_land(rng)
+                    cases.append("MX %s %d %d %d %d %s %s %s %s %s %d %s" % (route, use, pk, uk, bern, ty, flag, natkind, mv, land,
+                                                                              rng.randint(1, 10 ** 6), cells))
+    return cases
+
+
 # parameter sets per kernel: (scale, shape); alpha := scale and xmin/theta/beta := shape as
 # RadialDispersalKernel hands them on
 def law_params(rng, k):
@@ -246,6 +360,10 @@ CORPUS = [
     "K gamma 2 3 1 50000",  # std::gamma_distribution(alpha, 1/theta) against pdf with scale theta
     "K powerlaw 2.5 3 1 50000",  # icdf(U) against the pdf
     "K exppower 10 1.5 1 50000",
+    # network kernel in a switch kernel / in the mix at a cell without a node
+    "SW Network 0 teleport 4 7 10 30 0:1-3:5,2:2-1:6 11 0:1 1:1 2:2 3:6",
+    "MX hand 1 8 12 0 Network 1 radial teleport 4 7 10 30 0:1-3:5,2:2-1:6 5 0:1 1:1 2:2 3:5",
+    "MX cfg 1 8 12 0 Network 0 neighbor walk 4 7 10 30 0:1-3:5,2:2-1:6 5 0:1 1:1 2:2 3:5",
 ]
 
 
@@ -258,6 +376,7 @@ def generate(tier, seed, path):
         for f in sorted(os.listdir(cdir)):
             cases += vc.read_cases(os.path.join(cdir, f))
     cases += gen_exact(rng, thorough)
+    cases += gen_real(random.Random(seed * 104729 + 4013), thorough)
     cases += gen_stat(rng, thorough)
     if thorough:
         # further parameter draws for the statistical and geometry runs
@@ -307,9 +426,147 @@ def expected_class(which, idx, stochastic):
     return "radial" if stochastic else "deterministic"
 
 
+def documented_member(ty, stoch):
+    """switch_kernel.hpp / kernel.hpp as documented: the three named kernels,
+    every other type is a radial kernel type run stochastically or not"""
+    if ty == "Uniform":
+        return "uniform"
+    if ty == "DeterministicNeighbor":
+        return "neighbor"
+    if ty == "Network":
+        return "network"
+    return "radial" if stoch else "deterministic"
+
+
+def land_nodes(edges):
+    nodes = set()
+    if edges != "-":
+        for e in edges.split(","):
+            a, b = e.split("-")
+            nodes.add(a)
+            nodes.add(b)
+    return nodes
+
+
+def monitor_real(c, t, lines, line, ctx, st):
+    """SW SS KE FE MX: the clause "the mix uses the anthropogenic kernel only when
+    it is enabled and eligible at the source cell", eligibility = only the network
+    kernel restricts the source cell (it needs a node there), dispatch = the kernel
+    the type names."""
+    by = {}
+    for l in lines:
+        tag, _, val = l.partition(" ")
+        by[tag] = val
+    if "setup_failed" in by:
+        ctx.violation("C13.switch.run", "setting up the kernels of this case failed: %s" % by["setup_failed"], line)
+        return
+    if c == "SS":
+        st["SS"] += 1
+        ty = t[1]
+        d = kv(by.get("sup", ""))
+        exp = {"radial": ty in RADIAL_TYPES, "deterministic": ty in RADIAL_TYPES, "uniform": ty == "Uniform",
+               "neighbor": ty == "DeterministicNeighbor", "network": ty == "Network"}
+        if ty != "Network":  # the switch kernel dispatches Network but does not list it: recorded as an observation
+            exp["switch"] = ty in RADIAL_TYPES or ty in ("Uniform", "DeterministicNeighbor")
+        for name, e in exp.items():
+            if d.get(name) != ("1" if e else "0"):
+                ctx.violation("C13.switch.supports", "%s kernel: supports_kernel(%s) = %s, expected %d" % (name, ty, d.get(name), e), line)
+                break
+        return
+    if c == "SW":
+        ty, flag, nodes = t[1], t[2], land_nodes(t[8])
+        cells = t[10:]
+        exp_member = documented_member(ty, flag != "0")
+        for i, cell in enumerate(cells):
+            st["SW_cells"] += 1
+            d = kv(by.get("sw%d" % i, ""))
+            raw = by.get("swraw%d" % i, "")
+            node = cell in nodes
+            if "member" not in d:
+                ctx.violation("C13.switch.run", "no result for source cell %s" % cell, line)
+                return
+            if d["member"] != exp_member:
+                ctx.violation("C13.switch.dispatch", "SwitchDispersalKernel(%s, stochasticity %s) at %s: the result is that of the %s member kernel, "
+                              "the type names the %s kernel (%s)" % (ty, flag, cell, d["member"], exp_member, raw), line)
+                return
+            exp_elig = node if exp_member == "network" else True
+            if d.get("elig") != ("1" if exp_elig else "0"):
+                ctx.violation("C13.switch.eligible", "SwitchDispersalKernel(%s, stochasticity %s).is_cell_eligible(%s) = %s; the cell %s network node and "
+                              "operator() calls the %s kernel" % (ty, flag, cell, d.get("elig"), "has a" if node else "has no", d["member"]), line)
+                return
+            exp_exc = exp_member == "network" and not node
+            if d.get("exc") != ("1" if exp_exc else "0"):
+                ctx.violation("C13.switch.dispatch.exception", "SwitchDispersalKernel(%s, stochasticity %s) at %s: exception=%s, expected %d (%s)"
+                              % (ty, flag, cell, d.get("exc"), exp_exc, raw), line)
+                return
+            # eligibility must never promise a call that throws for lack of a node
+            if d.get("elig") == "1" and d.get("exc") == "1":
+                ctx.violation("C13.switch.eligible", "SwitchDispersalKernel(%s) reports %s eligible but the call throws (%s)" % (ty, cell, raw), line)
+                return
+        return
+    if c == "KE":
+        nodes = land_nodes(t[6])
+        for i, cell in enumerate(t[7:]):
+            st["KE_cells"] += 1
+            d = kv(by.get("ke%d" % i, ""))
+            exp = {"radial": "1", "deterministic": "1", "uniform": "1", "neighbor": "1", "network": "1" if cell in nodes else "0"}
+            for name, e in exp.items():
+                if d.get(name) != e:
+                    ctx.violation("C13.switch.eligible.kernel", "%s kernel: is_cell_eligible(%s) = %s; the cell %s network node"
+                                  % (name, cell, d.get(name), "has a" if cell in nodes else "has no"), line)
+                    return
+        return
+    if c == "FE":
+        st["FE"] += 1
+        s = unhex(t[2])
+        idx, _ = expected_kernel(s)
+        cls = kv(by.get("fe", "")).get("class", "")
+        if cls.startswith("err"):
+            if idx is not None and s in kernel_spellings(KERNEL_ENUM[idx]):
+                ctx.violation("C13.factory.reject", "factory rejects kernel name %r: %s" % (s, cls), line)
+            return
+        exp = expected_class(t[1], idx, int(t[3])) if idx is not None else None
+        if cls != exp:
+            ctx.violation("C13.factory.class", "%s factory for %r (stochastic=%s) creates a %s kernel, expected %s" % (t[1], s, t[3], cls, exp), line)
+            return
+        nodes = land_nodes(t[9])
+        for i, cell in enumerate(t[10:]):
+            e = "1" if (exp != "network" or cell in nodes) else "0"
+            got = kv(by.get("fe%d" % i, "")).get("elig")
+            if got != e:
+                ctx.violation("C13.switch.eligible.factory", "%s kernel built by the %s factory: is_cell_eligible(%s) = %s; the cell %s network node"
+                              % (cls, t[1], cell, got, "has a" if cell in nodes else "has no"), line)
+                return
+        return
+    if c == "MX":
+        route, use, pk, uk, ty, flag = t[1], int(t[2]), int(t[3]), int(t[4]), t[6], t[7]
+        nodes = land_nodes(t[14])
+        natural_draw = (2 * uk + 1) / 32.0 < pk / 16.0  # Bernoulli(percent_natural) says "natural"
+        for i, cell in enumerate(t[16:]):
+            st["MX_cells"] += 1
+            d = kv(by.get("mx%d" % i, ""))
+            raw = by.get("mxraw%d" % i, "")
+            eligible = ty != "Network" or cell in nodes
+            anth = bool(use) and eligible and not natural_draw
+            exp = {"elig": "1" if eligible else "0", "choice": "anthropogenic" if anth else "natural",
+                   "bdraws": "1" if (use and eligible) else "0", "exc": "0"}
+            if not eligible:
+                st["MX_ineligible"] += 1
+            bad = [k_ for k_ in ("elig", "choice", "bdraws", "exc") if d.get(k_) != exp[k_]]
+            if bad:
+                ctx.violation("C13.mix.real_kernels", "mix of real kernels (%s route, anthropogenic %s, stochasticity %s) at %s: enabled=%d, the cell %s network node, "
+                              "p_natural=%g u=%g: %s, expected %s (%s)"
+                              % (route, ty, flag, cell, use, "has a" if cell in nodes else "has no", pk / 16.0, (2 * uk + 1) / 32.0,
+                                 " ".join("%s=%s" % (k_, d.get(k_)) for k_ in ("elig", "choice", "bdraws", "exc")),
+                                 " ".join("%s=%s" % (k_, exp[k_]) for k_ in bad), raw), line)
+                return
+        return
+
+
 def monitor(cases, out, ctx, skip=()):
     st = {"N": 0, "T": 0, "D": 0, "M": 0, "U": 0, "F": 0, "G": 0, "G_draws": 0, "R": 0, "K": 0, "B": 0,
-          "names_accepted": 0, "names_rejected": 0, "max_ks": {}, "max_rad": {}}
+          "names_accepted": 0, "names_rejected": 0, "max_ks": {}, "max_rad": {},
+          "SS": 0, "SW_cells": 0, "KE_cells": 0, "FE": 0, "MX_cells": 0, "MX_ineligible": 0}
     for k, line in enumerate(cases):
         if k in skip:
             continue
@@ -403,6 +660,8 @@ def monitor(cases, out, ctx, skip=()):
             exp = expected_class(t[1], idx, int(t[3])) if idx is not None else None
             if val != exp:
                 ctx.violation("C13.factory.class", "%s factory for %r (stochastic=%s) creates a %s kernel, expected %s" % (t[1], s, t[3], val, exp), line)
+        elif c in ("SW", "SS", "KE", "FE", "MX"):
+            monitor_real(c, t, lines, line, ctx, st)
         elif c in ("G", "GF"):
             st["G"] += 1
             if c == "GF":
@@ -484,17 +743,18 @@ def monitor(cases, out, ctx, skip=()):
     return st
 
 
-EXACT_TAGS = ("nb", "kt", "dir", "mix", "uni", "fac")
+EXACT_TAGS = ("nb", "kt", "dir", "mix", "uni", "fac", "sup", "fe")
+EXACT_CELL_TAGS = re.compile(r"(sw|ke|fe|mx)\d+$")
 
 
 def relevant(l):
     p = l.split(" ", 2)
-    return len(p) > 1 and p[1] in EXACT_TAGS
+    return len(p) > 1 and (p[1] in EXACT_TAGS or EXACT_CELL_TAGS.match(p[1]) is not None)
 
 
 def nontrivial(c):
     t = c.split()
-    if t[0] in ("G", "GF", "R", "RF", "K", "U", "UF", "B"):
+    if t[0] in ("G", "GF", "R", "RF", "K", "U", "UF", "B", "SW", "KE", "FE", "MX", "SS"):
         return True
     if t[0] == "M":
         return t[1] == "1" and t[2] == "1"
@@ -629,7 +889,8 @@ def check(ctx, replay=None):
         "distinct_nontrivial": len(nt),
         "rule": "one evaluation = one case line (a kernel call, a name lookup, a mix decision, or one statistical run of "
                 "n draws); non-trivial = statistical/geometry/uniform runs, mix decisions with the anthropogenic kernel "
-                "enabled and eligible, neighbour calls with a direction, non-empty names; distinct = distinct case lines",
+                "enabled and eligible, neighbour calls with a direction, non-empty names, every real-kernel case (SW SS KE FE "
+                "MX: each evaluates several source cells, counted in monitor_stats); distinct = distinct case lines",
         "samples": [cases[0], cases[len(cases) // 3], cases[len(cases) // 2], cases[-1]],
         "case_kinds": kinds,
         "kernel_draws_total": draws,
@@ -647,4 +908,9 @@ def check(ctx, replay=None):
         "are not proved; only the use of the variates is",
         "theorems are over real numbers; binary64 rounding of cos/sin/division before lround is outside the model",
         "int overflow of row/col for astronomically large Cauchy draws is outside the model",
+        "whether a cell has a network node (Network::has_node_at) and what Network::walk/teleport return are property "
+        "C15's subject: here node_at is an input, and NetworkDispersalKernel::operator() throwing std::invalid_argument "
+        "at a cell without a node is its documented contract (class_call_throws, validated by the SW/MX runs)",
+        "which member kernel a SwitchDispersalKernel call used is identified by the harness: the call's result and "
+        "generator-call count equal those of exactly one member kernel run alone from the same generator state",
     ]
